@@ -54,6 +54,7 @@ CONSTANTS NA,     \* associations (one viewer each)
           NG,     \* region handles 1..NG (an announcement names a handle, or none: 0)
           Tcp,    \* TRUE: the SOCKS control connections of the viewers are part of the model (Associate,
                   \* CloseControl); FALSE: every viewer's association exists from the start and stays
+          Flt,    \* TRUE: the bounded model explores send faults (see Faults)
           GMode   \* which announcements the bounded model explores: "addr" every address has its own
                   \* handle (handle = address number, no region ever moves); "any" every handle 1..NG at
                   \* every address; "any0" also announcements without a handle
@@ -117,7 +118,7 @@ HKinds == {"msg", "rmsg", "rhs", "amc", "ucc", "spoof", "banned", "badbody"} \cu
 \* The event is otherwise EXACTLY the event without the fault -- same hand-over to the transport, same
 \* state change -- and nothing about any other datagram, circuit, session or association changes
 \* (the actions below never look at ft; all laws apply to faulted events unchanged).
-Faults == {"none", "err", "raise"}
+Faults == IF Flt THEN {"none", "err", "raise"} ELSE {"none"}
 Ev(n, a, h, k, s, ch, ft) == [n |-> n, a |-> a, h |-> h, k |-> k, s |-> s, ch |-> ch, ft |-> ft]
 
 Init == /\ ctl = [a \in Assoc |-> IF Tcp THEN "none" ELSE "open"]
